@@ -201,6 +201,9 @@ pub fn describe(img: &ModularImage) -> String {
 pub fn run(args: &Args) -> i32 {
     let thorough = args.thorough();
     let tiny = args.extra.contains_key("tiny");
+    // 2: any preview (incl. the known-finding class), 1: only previews both sizings agree on (used when
+    // this workload runs as a stage of C02, which judges memory safety only)
+    let preview_mode = args.extra_u64("preview-mode", 2) as u32;
     run_cases(args, 0xC03, |case| {
         let mut rng = case.rng.fork();
         let opts = if tiny {
@@ -215,7 +218,7 @@ pub fn run(args: &Args) -> i32 {
                 _ => 4,
             },
             max_dim: if thorough { 1100 } else { 300 },
-            preview: 2,
+            preview: preview_mode,
             ..Default::default()
         } };
         let mut img = None;
